@@ -91,6 +91,17 @@ func c09Catalogue() []Shape {
 		add("call-tree/"+b.n+"@func", sb.String()+"function w1() { z = t1(); return z; } return w1();", false)
 		add("call-tree/"+b.n+"@if-in-foreach", sb.String()+"foreach q in [1] { if (true) { z = t1(); } } return z;", false)
 	}
+	// a loop around every built-in function the library registers (also those
+	// a change added: the list is discovered, see c08Builtins) with a number
+	// for an argument: whatever a built-in does with it - wait, count, repeat -
+	// happens on the simulated clocks
+	for _, b := range c08Builtins {
+		if b == "panic" || b == "print" || b == "printf" {
+			continue
+		}
+		add("builtin-loop/"+b+"@top", "while (true) { q9 = "+b+"(3000); } return 1;", false)
+		add("builtin-loop/"+b+"@func", "function w1() { q9 = "+b+"(\"x\", 3000); q8 = "+b+"(250); return 1; } while (true) { z = w1(); }", false)
+	}
 	// loops whose body is a call: spinning through call entry / return
 	for _, b := range bodies {
 		add("call-in-loop/"+b.n, "function w1() { q = 0; while (q < 3) { q++; "+b.t+" } return q; } while (true) { x = w1(); }", false)
